@@ -74,12 +74,19 @@ def strip_coq_comments(text):
 
 
 def coq_sources():
+    """The development: every file listed in _CoqProject, the property files and Extract.v
+    (files not yet listed there are work in progress and not part of any claim)."""
     res = []
-    for d, _, fs in os.walk(COQ):
-        for f in fs:
-            if f.endswith(".v"):
-                res.append(os.path.join(d, f))
-    return sorted(res)
+    for l in open(os.path.join(COQ, "_CoqProject")):
+        l = l.strip()
+        if l.endswith(".v"):
+            res.append(os.path.join(COQ, l))
+    pd = os.path.join(COQ, "Props")
+    for f in sorted(os.listdir(pd)):
+        if f.endswith(".v"):
+            res.append(os.path.join(pd, f))
+    res.append(os.path.join(COQ, "Extract.v"))
+    return sorted(set(res))
 
 
 def hygiene():
